@@ -128,8 +128,23 @@ class WireWorld(OracleWorld):
         if p == "core::iter::traits::iterator::Iterator::collect":
             it = args[0]
             if isinstance(it, Opq) and it.kind == "splitn":
+                if isinstance(it.data[-1], int):
+                    raise AnalysisError("collect of a field iterator that was already advanced")
                 return Opq("fields", it.data)
             raise AnalysisError("collect of %r" % (it,))
+        if callee["name"] == "next" and args and isinstance(args[0], Ref):
+            # fields taken one by one: the k-th next() yields field k while the line has that many
+            from ..models import _innermost_ref
+
+            ref, it = _innermost_ref(m, st, args[0])
+            if isinstance(it, Opq) and it.kind == "splitn":
+                pos = it.data[-1] if isinstance(it.data[-1], int) else 0
+                base = it.data[:-1] if isinstance(it.data[-1], int) else it.data
+                n = st.choose(("nfields",), [1, 2, 3] if len(base) == 1 else [1, 2, 3, 4])
+                if pos >= n:
+                    return ip.none()
+                m.store(st, ref.loc, Opq("splitn", base + (pos + 1,)))
+                return ip.some(Ref(("val", Str(("field", pos)))))
         if p == "alloc::vec::Vec::<T, A>::len":
             v = deref_all(m, st, args[0])
             if isinstance(v, Opq) and v.kind == "fields":
@@ -353,6 +368,69 @@ def regex_groups(prog, rep):
     rep.floor("regex group references", n, 4)
 
 
+READ_LINE = "std::io::BufRead::read_line"
+STR_PARSE = "core::str::<impl str>::parse"
+
+
+class LineWorld(OracleWorld):
+    """CsvLineParser::next over an abstract reader: every read_line answers Err or Ok(n) (n unknown, so
+    the code's own `n == 0` test decides end of file); the row parser answers Ok(row) or Err(error).
+    `line_number` starts as an unknown count ln >= 0 of lines already read, so one interpretation covers
+    every call of next() in the life of a parser."""
+
+    def __init__(self, prog, ln_field):
+        OracleWorld.__init__(self, prog)
+        self.ln_field = ln_field
+
+    def current_ln(self, m, st):
+        me = st.heap[("arg", 0)]
+        return me.fields[self.ln_field]
+
+    def call(self, m, st, callee, args, term):
+        p = callee["path"]
+        if p == READ_LINE or callee["name"] == "read_line" and callee["crate"] != "precis_tools":
+            k = st.ext.get("reads", 0) + 1
+            ans = st.choose(("read", k), ["Err", "Ok"])
+            st.ext["reads"] = k
+            st.emit(("read", k, self.current_ln(m, st), ans))
+            if ans == "Err":
+                return ip.err(Opq("io-error", (k,)))
+            return ip.ok(Sym(("nbytes", k), "usize"))
+        if p == STR_PARSE or (callee["name"] == "from_str" and not callee["resolved"]):
+            k = st.ext.get("parses", 0) + 1
+            ans = st.choose(("parse", k), ["Err", "Ok"])
+            st.ext["parses"] = k
+            st.emit(("parse", k, self.current_ln(m, st), ans))
+            if ans == "Ok":
+                return ip.ok(Sym(("row", k), "opaque!"))
+            e = ty_.fresh(self.prog, ERR, ("row-error", k))
+            return ip.err(e)
+        if p in m.models:
+            return None
+        if callee["crate"] != "precis_tools":
+            dl = term["dest"]
+            return ty_.fresh(self.prog, st.frames[-1].body.locals[dl["l"]]["ty"] if not dl["p"] else "?", ("ext", callee["name"], st.fresh()))
+        return OracleWorld.call(self, m, st, callee, args, term)
+
+    def opaque_const(self, st, c):
+        return Opq("const", (c.get("ty"),))
+
+    def enum_variants(self, ty):
+        if ty == "opaque!":
+            raise AnalysisError("the parsed row is inspected instead of passed on")
+        return OracleWorld.enum_variants(self, ty)
+
+
+def _bounds(st, v):
+    if isinstance(v, I):
+        return v.v, v.v
+    if isinstance(v, Sym):
+        bname, k = ip.lin_parts(v)
+        r = ip.rng_get(st, Sym(bname, v.ty))
+        return r[0][0] + k, r[-1][1] + k
+    return None, None
+
+
 def line_numbers(prog, rep):
     key = None
     for b in prog.by_crate["precis_tools"]:
@@ -366,73 +444,100 @@ def line_numbers(prog, rep):
     adt = prog.adts[CSV + "CsvLineParser"]
     fidx = {f["name"]: i for i, f in enumerate(adt["variants"][0]["fields"])}
     ln = fidx["line_number"]
-    loops = b.loops()
-    dom = b.dominators()
-
-    def is_field(pl, idx):
-        ps = [e for e in pl["p"] if e["k"] != "deref"]
-        return pl["l"] == 1 and ps and ps[0]["k"] == "field" and ps[0]["i"] == idx and len(ps) == 1
-
-    incs, reads = [], []
-    for i, bl in enumerate(b.blocks):
-        if bl["cleanup"]:
+    lnty = adt["variants"][0]["fields"][ln]["ty"]
+    # the constructor starts counting at 0
+    nb = prog.body(CSV + "CsvLineParser::<R, D>::new")
+    init_ok = False
+    if nb is not None:
+        rep.fn(nb.key)
+        for bl in nb.blocks:
+            for st_ in bl["stmts"]:
+                if st_["k"] == "assign" and st_["rv"]["k"] == "aggregate" and st_["rv"].get("adt") == CSV + "CsvLineParser":
+                    o = st_["rv"]["ops"][ln]
+                    init_ok = o.get("k") == "int" and o.get("v") == 0
+    rep.ob("line-numbers", "a new parser starts with line_number = 0", init_ok, "CsvLineParser::new does not initialise line_number with the constant 0", nb.where() if nb else b.where(), key="line-numbers|init")
+    w = LineWorld(prog, ln)
+    m = ip.Machine(prog, w)
+    st0 = ip.State()
+    args = ty_.fresh_args(prog, st0, prog.fns[key]["inputs"])
+    me = st0.heap[("arg", 0)]
+    if not (isinstance(me, Adt) and len(me.fields) > ln):
+        rep.ob("line-numbers", "CsvLineParser::next", False, "analysis-error: cannot build an abstract parser value", b.where(), key="analysis-error|line-numbers")
+        return
+    st0.heap[("arg", 0)] = Adt(me.ty, me.variant, tuple(Sym("ln", lnty) if i == ln else f for i, f in enumerate(me.fields)))
+    try:
+        outs = m.run(m.start(key, args, st0), max_paths=4000)
+    except AnalysisError as e:
+        rep.analysis_error("line-numbers", key, e, b.where())
+        return
+    inc_bad, hdr_bad, stamp_bad = [], [], []
+    n_paths = 0
+    for o in outs:
+        if o.kind == "diverge":
+            hdr_bad.append("the read loop does not end (%s)" % o.info)
             continue
-        for st in bl["stmts"]:
-            if st["k"] == "assign" and st["rv"]["k"] == "binop" and st["rv"]["op"].startswith("Add") and st["rv"]["a"].get("k") in ("copy", "move") and is_field(st["rv"]["a"]["place"], ln) and st["rv"]["b"].get("v") == 1:
-                incs.append(i)
-        t = bl["term"]
-        if t["k"] == "call" and t["callee"] and t["callee"]["path"] == "std::io::BufRead::read_line":
-            reads.append(i)
-    in_loop = lambda x: any(x in blocks for blocks in loops.values())
-    okk = len(incs) == 1 and len(reads) == 1 and in_loop(incs[0]) and in_loop(reads[0]) and incs[0] in dom[reads[0]]
-    rep.ob("line-numbers", "line_number += 1 exactly once before every read_line", okk, "increments in blocks %s, read_line in %s" % (incs, reads), b.where(), key="line-numbers|increment")
-    # header skip: the loop is left only when line_number > 1 (or at EOF / IO error)
-    cmp_ok = False
-    defs = prov.Defs(b)
-
-    def reads_ln(o):
-        if o.get("k") not in ("copy", "move"):
-            return False
-        org = prov.operand_origin(b, o, defs)
-        return org[0] == "arg" and org[1] == 1 and prov.fields_of(org[2]) == [ln]
-
-    for i, bl in enumerate(b.blocks):
-        for st in bl["stmts"]:
-            if st["k"] == "assign" and st["rv"]["k"] == "binop" and st["rv"]["op"] in ("Gt", "Ge") and in_loop(i):
-                a, c = st["rv"]["a"], st["rv"]["b"]
-                if reads_ln(a) and ((st["rv"]["op"] == "Gt" and c.get("v") == 1) or (st["rv"]["op"] == "Ge" and c.get("v") == 2)):
-                    cmp_ok = True
-    rep.ob("line-numbers", "first physical line (header) skipped: rows start at line_number > 1", cmp_ok, "no `line_number > 1` test found in the read loop", b.where(), key="line-numbers|header")
-    # the row error is stamped with Some(line_number captured before parsing)
-    clos = [k for k in prog.bodies if k.startswith(b.id + "::{closure")]
-    stamped = False
-    efields = {f["name"]: i for i, f in enumerate(prog.adts[ERR]["variants"][0]["fields"])}
-    # the value captured by the closure must be the line number read before parsing
-    cap_ok = False
-    for bl in b.blocks:
-        for st in bl["stmts"]:
-            if st["k"] == "assign" and st["rv"]["k"] == "aggregate" and st["rv"].get("agg") == "closure":
-                for o in st["rv"]["ops"]:
-                    org = prov.operand_origin(b, o, defs)
-                    if org[0] == "arg" and org[1] == 1 and prov.fields_of(org[2]) == [ln]:
-                        cap_ok = True
-    for ck in clos:
-        cb = prog.bodies[ck]
-        rep.fn(ck)
-        cdefs = prov.Defs(cb)
-        for bl in cb.blocks:
-            for st in bl["stmts"]:
-                if st["k"] != "assign":
-                    continue
-                ps = [e for e in st["place"]["p"] if e["k"] != "deref"]
-                if ps and ps[-1]["k"] == "field" and ps[-1]["i"] == efields.get("line") and st["rv"]["k"] == "use":
-                    org = prov.operand_origin(cb, st["rv"]["op"], cdefs)
-                    if org[0] == "agg" and org[1].get("variant_name") == "Some" and org[1]["ops"]:
-                        inner = prov.operand_origin(cb, org[1]["ops"][0], cdefs)
-                        if inner[0] == "arg" and inner[1] == 1:
-                            stamped = True
-    stamped = stamped and cap_ok
-    rep.ob("line-numbers", "row errors carry Some(line number)", stamped, "no closure stores Some(captured line number) into Error.line", b.where(), key="line-numbers|stamp")
+        if o.kind != "return":
+            hdr_bad.append("path ends with %s: %s" % (o.kind, o.info))
+            continue
+        n_paths += 1
+        st = o.state
+        reads = [e for e in st.events if e[0] == "read"]
+        parses = [e for e in st.events if e[0] == "parse"]
+        desc = []
+        for i, (_, k, val, ans) in enumerate(reads, 1):
+            bname, off = ip.lin_parts(val) if isinstance(val, Sym) else (None, None)
+            if not (bname == "ln" and off == i):
+                inc_bad.append("read_line #%d of a call happens with line_number = %s (expected: previous count + %d)" % (i, ("ln%+d" % off) if bname == "ln" else repr(val), i))
+            lo, hi = _bounds(st, val)
+            nlo, nhi = _bounds(st, Sym(("nbytes", k), "usize")) if ans == "Ok" else (None, None)
+            kind = "Err" if ans == "Err" else "EOF" if nhi == 0 else "Line" if nlo >= 1 else "untested"
+            desc.append((kind, lo, hi))
+        v = o.value
+        res = "?"
+        payload = None
+        if isinstance(v, Adt) and v.ty == ip.OPTION:
+            if v.variant == 0:
+                res = "None"
+            elif isinstance(v.fields[0], Adt) and v.fields[0].ty == ip.RESULT:
+                res = "Some(Ok)" if v.fields[0].variant == 0 else "Some(Err)"
+                payload = v.fields[0].fields[0]
+        if not desc:
+            hdr_bad.append("returns %s without reading a line" % res)
+            continue
+        for kind, lo, hi in desc[:-1]:
+            if not (kind == "Line" and hi is not None and hi <= 1):
+                hdr_bad.append("after a read (%s, line number in [%s, %s]) the loop reads again: only the header line (line 1) may be skipped" % (kind, lo, hi))
+        kind, lo, hi = desc[-1]
+        if kind == "untested":
+            hdr_bad.append("the byte count returned by read_line is not tested against 0 (end of file)")
+        elif kind == "Err":
+            if res != "Some(Err)" or parses:
+                hdr_bad.append("an IO error yields %s" % res)
+        elif kind == "EOF":
+            if res != "None" or parses:
+                hdr_bad.append("end of file yields %s" % res)
+        else:
+            if lo is None or lo < 2:
+                hdr_bad.append("a line whose number may be %s is parsed as a data row: the first physical line is the header" % lo)
+            if len(parses) != 1:
+                hdr_bad.append("a data line is parsed %d times (result %s)" % (len(parses), res))
+            else:
+                _, pk, pval, pans = parses[0]
+                if pans == "Ok":
+                    if not (res == "Some(Ok)" and isinstance(payload, Sym) and payload.name == ("row", pk)):
+                        stamp_bad.append("a successfully parsed row is returned as %s" % res)
+                else:
+                    line = payload.fields[1] if (res == "Some(Err)" and isinstance(payload, Adt) and len(payload.fields) > 1) else None
+                    efields = {f["name"]: i for i, f in enumerate(prog.adts[ERR]["variants"][0]["fields"])}
+                    line = payload.fields[efields["line"]] if (res == "Some(Err)" and isinstance(payload, Adt) and payload.ty == ERR) else None
+                    good = isinstance(line, Adt) and line.ty == ip.OPTION and line.variant == 1 and line.fields[0] == reads[-1][2]
+                    if not good:
+                        stamp_bad.append("a row error is returned with line = %s instead of Some(number of the line just read)" % (("Some(%r)" % (line.fields[0].name,)) if isinstance(line, Adt) and line.variant == 1 and isinstance(line.fields[0], Sym) else "None" if isinstance(line, Adt) and line.variant == 0 else "an unrelated value"))
+    rep.extra["line_number_paths"] = n_paths
+    rep.ob("line-numbers", "line_number += 1 exactly once before every read_line", not inc_bad and n_paths > 0, "; ".join(sorted(set(inc_bad))[:2]), b.where(), key="line-numbers|increment")
+    rep.ob("line-numbers", "first physical line (header) skipped: rows start at line_number > 1", not hdr_bad and n_paths > 0, "; ".join(sorted(set(hdr_bad))[:2]), b.where(), key="line-numbers|header")
+    rep.ob("line-numbers", "row errors carry Some(line number)", not stamp_bad and n_paths > 0, "; ".join(sorted(set(stamp_bad))[:2]), b.where(), key="line-numbers|stamp")
+    rep.floor("paths of CsvLineParser::next", n_paths, 5)
 
 
 def panic_freedom(prog, rep):
